@@ -201,6 +201,15 @@ def make_cells(gi, tier):
     cells.append(Cell("%s/algebra_sugar" % nm, st.fixed_dictionaries({"x": alg, "y": alg, "s": gens.fl(-3.0, 3.0)}), check_sugar,
                       lambda c: nt_a(c["x"]) and nt_a(c["y"]), quick=40, thorough=500, build=lambda: gi.fn("alg_sugar").build()))
 
+    # ---- matrix -> algebra element (vee of a matrix), where offered, inverts hat
+    def check_alg_frommat(case):
+        x = enca(case["x"])
+        got = cy.vec(gi.fn("alg_fromM")(L.hat(gi, x)))
+        L.close(got, x, "%s: algebra from_Matrix(to_Matrix(x)) vs x" % nm, atol=0, rtol=1e-15, x=x.tolist())
+
+    cells.append(Cell("%s/algebra_frommat" % nm, st.fixed_dictionaries({"x": alg}), check_alg_frommat, lambda c: nt_a(c["x"]),
+                      quick=40, thorough=500, build=lambda: gi.fn("alg_fromM").build()))
+
     # ---- element objects reused across several operations (in-place mutation / aliasing shows here)
     def mk_reuse():
         x, y, z = gi._x("x"), gi._x("y"), gi._x("z")
@@ -240,7 +249,19 @@ def make_cells(gi, tier):
         xs = draw(algs)
         pert = [draw(st.sampled_from([0.0, 1e-9, 1e-7, -1e-6, 1e-5])) for _ in range(draw(st.integers(1, 3)))]
         return {"X": X, "x": xs, "pert": pert, "d": draw(gens.vector(gi.n, scales=(0,), allow_zero=False)),
-                "da": draw(gens.vector(gi.na, scales=(0,), allow_zero=False))}
+                "da": draw(gens.vector(gi.na, scales=(0,), allow_zero=False)), "y": draw(algs),
+                # numeric operands with structurally special values: an exactly zero block in x, in y, or none
+                "zero_slot": draw(st.sampled_from([None, None, "x", "y"])), "slot": draw(st.integers(0, len(gi.alg_layout) - 1))}
+
+    def zero_slot(v, k):
+        v = np.array(v, float)
+        o = 0
+        for i, sl in enumerate(gi.alg_layout):
+            w = sl[1] if sl[0] == "vec" else 3 if sl[0] == "rotvec" else 1
+            if i == k:
+                v[o:o + w] = 0.0
+            o += w
+        return v
 
     def check_numeric(case):
         X0 = encg(case["X"])
@@ -259,15 +280,54 @@ def make_cells(gi, tier):
                 got = gi.numeric(key, arg)
                 L.close(got, want, "%s: %s called on numeric parameters (after earlier numeric calls) vs the symbolic function" % (nm, key),
                         atol=1e-12, rtol=1e-12, scale=float(np.max(np.abs(want))), arg=np.asarray(arg).tolist(), eps=eps)
+            if "y" in case:
+                y = enca(case["y"])
+                xb, yb = x, y
+                if case.get("zero_slot") == "x":
+                    xb = zero_slot(x, case["slot"])
+                elif case.get("zero_slot") == "y":
+                    yb = zero_slot(y, case["slot"])
+                try:
+                    want = cy.vec(gi.fn("bracket")(xb, yb))
+                except Exception as e:
+                    if type(e).__name__ == "NotOffered":
+                        continue
+                    raise
+                got = cy.vec(gi.numeric("bracket", xb, yb))
+                A, B = L.hat(gi, xb), L.hat(gi, yb)
+                comm, _ = L.vee(gi, A @ B - B @ A)
+                sc = (1 + float(np.max(np.abs(xb)))) * (1 + float(np.max(np.abs(yb))))
+                L.close(got, want, "%s: bracket called on numeric parameters vs the symbolic function" % nm, scale=sc,
+                        x=xb.tolist(), y=yb.tolist())
+                L.close(got, comm, "%s: bracket called on numeric parameters vs the matrix commutator" % nm, scale=sc,
+                        x=xb.tolist(), y=yb.tolist())
 
     cells.append(Cell("%s/numeric_mode" % nm, num_seq(), check_numeric, lambda c: nt_g(c["X"]), quick=40, thorough=600))
     return cells
+
+
+def euler_variant_cell():
+    def check(case):
+        i = case["variant"]
+        require(0 <= i < len(L.euler_variants()))
+        name = L.euler_variants()[i][0]
+        ang, y = np.array(case["ang"], float), np.array(case["y"], float)
+        M = L.euler_variant_fn(i, "toM")(ang)
+        Ad = L.euler_variant_fn(i, "Ad")(ang)
+        if Ad.shape != (3, 3):
+            raise Violation("%s: Ad has shape %s, expected (3, 3)" % (name, Ad.shape))
+        want = ref.vee3(M @ ref.hat3(y) @ np.linalg.inv(M))
+        L.close(Ad @ y, want, "%s: Ad_X y vs vee(M(X) hat(y) M(X)^-1)" % name, scale=1 + float(np.max(np.abs(y))), **case)
+
+    return Cell("SO3EulerVariants/conj", L.euler_variant_case(), check, lambda c: sum(abs(a) > 1e-2 for a in c["ang"]) >= 2 and any(c["y"]),
+                lambda c: [L.euler_variants()[c["variant"]][1]], quick=460, thorough=6000)
 
 
 def build(tier):
     cells = []
     for gi in L.all_groups(tier):
         cells += make_cells(gi, tier)
+    cells.append(euler_variant_cell())
     return {
         "cells": cells,
         "rule": RULE,
@@ -275,6 +335,8 @@ def build(tier):
             "hat = cyecca's algebra to_Matrix evaluated on basis vectors; vee = least-squares coordinates in that "
             "basis with a closure-residual check, so the oracle does not rely on index picking in from_Matrix",
             "operations that raise NotImplementedError when built (Ad and bracket of direct products) are out of scope",
+            "Euler groups built from the exposed SO3EulerLieGroup class (body/space fixed x 12 proper axis sequences) are checked "
+            "for Ad against conjugation with their own matrix form",
             "tolerance 1e-9 relative to the magnitude of the operands (translations up to 1e3 are generated)",
         ],
         "matchers": {},
